@@ -159,6 +159,21 @@ def check_stream(gen: int, stream: bytes, eof: bool, probes: int, stats: Stats |
                                        f"the stream's frame #{i} is {(fr.to, fr.frm, fr.pid, fr.mtype)}")
                 if verdict == "undefined":
                     bad("undefined-delivered", f"frame #{i} ({kind}) carries a code the documents do not define but was delivered")
+                # whatever is delivered as an 'unsupported' message must carry the identifier and payload the frame holds
+                m = delivered[i][2]
+                inner = getattr(m, "sub_message", m)
+                if type(inner).__name__ == "UnsupportedMessage":
+                    if fr.mtype == 0x1F:
+                        exp_id, exp_raw = (int.from_bytes(fr.data[:2], "big"), fr.data[2:]) if len(fr.data) >= 2 else (None, b"")
+                    elif fr.mtype == 0xC0 and gen == 5:
+                        exp_id, exp_raw = (fr.data[0], fr.data[8:]) if len(fr.data) >= 8 else (None, b"")
+                    else:
+                        exp_id, exp_raw = fr.mtype, fr.data
+                    if exp_id is None or inner.message_id != exp_id or bytes(inner.raw_data) != bytes(exp_raw):
+                        bad("invented-message", f"frame #{i} (type {fr.mtype:#x}, data {fr.data.hex()}) was delivered as an unsupported "
+                                                f"message with id {inner.message_id:#x} / payload {bytes(inner.raw_data).hex()!r}: "
+                                                + ("the frame is too short to carry a sub-type at all" if exp_id is None else
+                                                   f"the frame holds {exp_id:#x} / {bytes(exp_raw).hex()!r}"))
             else:
                 stopped_at = i
                 # the client stopped delivering here: legitimate only if this frame is rejectable
@@ -296,7 +311,7 @@ def shards(tier: str):
 def floors(tier: str):
     return {"unknown-type": 400, "unknown-ext-sub": 100, "unknown-c0-sub": 200, "model:error": 100, "model:clean": 100,
             "decoder-rejected": 20, "how:recomputed": 100, "how:truncate": 30,
-            "how:c0-normal-section": 40}
+            "how:c0-normal-section": 40, "short-wrapper": 14}
 
 
 def run_shard(spec, seed: int, tier: str):
@@ -316,6 +331,13 @@ def run_shard(spec, seed: int, tier: str):
                 body = bytes((sub + k) & 0xFF for k in range(normal + rlen * rcount))
                 data = bytes([sub, 0]) + struct.pack(">HHH", normal, rlen, rcount) + body
                 stats.guard(check_unknown, gen, 0xC0, data, 0x80, stats, "unknown-c0-sub")
+        # wrapper frames too short to carry a sub-type / sub-header at all (0x1F: < 2 bytes, 0xC0: < 8 bytes)
+        shorts = [(0x1F, bytes(range(0x10, 0x10 + n))) for n in range(2)] + [(0x1F, b"\xff")]
+        if gen == 5:
+            shorts += [(0xC0, bytes([0x21, 0, 0, 0, 0, 8, 0, 1][:n])) for n in range(8)]
+        for mt, data in shorts:
+            fr_ = refproto.frame(gen, 0xB0, 0x90 if mt == 0x1F else 0x80, 9, mt, data)
+            stats.guard(check_stream, gen, fr_, False, 2, stats, "short-wrapper")
         stats.exhaustive = True
         stats.samples.append({"gen": gen, "part": "all unknown type bytes" + (" and all unknown 0xC0 sub-types" if gen == 5 else "")})
     elif spec["part"] == "subids":
